@@ -308,6 +308,8 @@ class ProgGen:
         self.n_names = 0
         self.refs: dict[str, dict] = {}
         self.cpd_used = False
+        self.pending: list[dict] = []  # directed follow-ups (motifs) queued by update(); served before random ops
+        self.motifs: dict[str, float] = {}  # motif name -> probability of being queued when its trigger is seen
         self.pulse_fn = None   # optional override: (rng, channel spec, phase) -> pulse spec
         self.dmm_wf_fn = None  # optional override: (rng, channel spec, weights) -> waveform spec
 
@@ -320,6 +322,25 @@ class ProgGen:
         d = self.refs.setdefault(basis, {})
         for q in qs:
             d[q] = d.get(q, 0.0) + phi
+
+    def _motif_drift(self, op: dict) -> None:
+        """After an EOM pulse: a pulse on another channel sharing an atom ('no-delay', so it may overlap), then an
+        EOM pulse of the *same* nominal phase with drift correction that has to wait for it."""
+        r = self.rng
+        if self.pending or r.random() >= self.motifs.get("drift", 0.0):
+            return
+        n = op["ch"]
+        mine = set(self.chans[n]["targets"])
+        others = [m for m, c in self.chans.items() if m != n and not c["dmm"] and not c["eom"]
+                  and mine & set(c["targets"]) and not c.get("slm_wait")]
+        if not others:
+            return
+        m = pick(r, others)
+        self.pending.append({"op": "add", "pulse": gen_pulse(r, self.chans[m]["spec"], phase=self._phase(m), big=self.big),
+                             "ch": m, "protocol": "no-delay"})
+        self.pending.append({"op": "add_eom_pulse", "ch": n, "duration": gen_duration(r, self.chans[n]["spec"], self.big),
+                             "phase": op["phase"], "cpd": True,
+                             "protocol": pick(r, ["min-delay", "min-delay", "wait-for-all"])})
 
     # -- helpers -------------------------------------------------------------
     def _style(self, op: dict) -> dict:
@@ -434,6 +455,8 @@ class ProgGen:
     # -- next op ----------------------------------------------------------------
     def next_op(self) -> dict:
         r = self.rng
+        if self.pending:
+            return self._style(self.pending.pop(0))
         k = wchoice(r, self.applicable())
         try:
             return self._style(self.make(k))
@@ -615,6 +638,7 @@ class ProgGen:
         elif k == "add_eom_pulse":
             self.nonempty = True
             self.last_phase[op["ch"]] = op["phase"]
+            self._motif_drift(op)
             if op.get("pps"):
                 self._bump(self.chans[op["ch"]]["basis"], self.chans[op["ch"]]["targets"], op["pps"])
             self._slm_started(op["ch"])
